@@ -559,7 +559,10 @@ def _close(a, b, rel=1e-9, abs_=0.0, nan_ok=False):
         return False
     if not (math.isfinite(a) and math.isfinite(b)):
         return nan_ok and ((math.isnan(a) and math.isnan(b)) or a == b)
-    return abs(a - b) <= rel * max(abs(a), abs(b)) + abs_
+    # below the normal range of binary64 (|x| < 2.3e-308) results are subnormal or flushed to zero and carry no relative
+    # accuracy at all (seed 30 of a sweep: model 4.0e-318, scipy's erfc 0.0): the underflow threshold is the only
+    # absolute floor left in any tolerance of this module
+    return abs(a - b) <= rel * max(abs(a), abs(b)) + abs_ + 1e-300
 
 
 def _gt(a, b):
